@@ -27,7 +27,10 @@ Term  == [ptr : BOOLEAN, pc : BOOLEAN, pv : BOOLEAN, c : BOOLEAN, v : BOOLEAN, r
 Terms == {t \in Term : ~t.ptr => (~t.pc /\ ~t.pv)}
 
 Obj(t)    == t.ref = "none"                       \* an object (non-reference) type
-NoVol(t)  == ~t.v /\ ~t.pv                        \* "(const) reference": volatile is outside the statement
+NoVol(t)  == ~t.v /\ ~t.pv                        \* no volatile anywhere
+(* "for every cv/reference combination": volatile is a cv-qualifier.  A reference or pointer closure *)
+(* designates the original object, so it keeps every qualifier of its referent (dropping volatile    *)
+(* would not even compile: closure(x) for a volatile x); an owned value is the decayed type.         *)
 Plain(t)  == ~t.ptr                               \* not a pointer
 
 (* std::decay for these terms (no arrays, no functions): drop the reference, then top-level cv *)
@@ -83,6 +86,7 @@ Constify(t) ==
 (* A source form is the declared type of the expression; a forwarding reference T&& deduces   *)
 (* T = U& for an lvalue of type U and T = U for an rvalue.                                    *)
 Forms == {"T", "T&", "const T&", "T&&", "const T&&"}
+VolForms == {"volatile T&", "const volatile T&"}          \* lvalues of volatile-qualified type
 Deduced(f) ==      \* the term for the deduced template argument
     LET base == [ptr |-> FALSE, pc |-> FALSE, pv |-> FALSE, c |-> FALSE, v |-> FALSE, ref |-> "none"]
     IN CASE f = "T"         -> base
@@ -90,9 +94,12 @@ Deduced(f) ==      \* the term for the deduced template argument
          [] f = "const T&"  -> [base EXCEPT !.ref = "lref", !.c = TRUE]
          [] f = "T&&"       -> base
          [] f = "const T&&" -> [base EXCEPT !.c = TRUE]
+         [] f = "volatile T&"       -> [base EXCEPT !.ref = "lref", !.v = TRUE]
+         [] f = "const volatile T&" -> [base EXCEPT !.ref = "lref", !.c = TRUE, !.v = TRUE]
 Factories == {"closure", "const_closure", "closure_pointer", "const_closure_pointer",
               "proxy_wrapper", "masked_value", "optional", "rvalue_accessor", "lvalue_accessor",
-              "forward_same", "forward_diff"}
+              "forward_same", "forward_diff", "pointer_deref", "pointer_arrow", "address_of"}
+VolFactories == {"closure", "const_closure", "closure_pointer", "const_closure_pointer", "proxy_wrapper"}
 (* the closure type argument(s) of the wrapper the factory returns for source form f *)
 FactoryCT(fac, f) ==
     CASE fac \in {"closure", "closure_pointer", "optional"}        -> ClosureType(Deduced(f))
@@ -104,8 +111,12 @@ FactoryCT(fac, f) ==
       (* reference to the stored object) for value closures                                       *)
       [] fac = "lvalue_accessor"  -> {LRef(ct) : ct \in ClosureType(Deduced(f))}
       [] fac = "rvalue_accessor"  -> UNION {IF ct.ref = "lref" THEN {ct}
-                                            ELSE {Decay(ct), [ct EXCEPT !.ref = "rref"], [Decay(ct) EXCEPT !.ref = "rref"]}
+                                            ELSE {Decay(ct), ct, [ct EXCEPT !.ref = "rref"], [Decay(ct) EXCEPT !.ref = "rref"]}
                                             : ct \in ClosureType(Deduced(f))}
+      (* a closure pointer p made from source form f: *p and *(p.operator->()) are the designated object;       *)
+      (* &w for a closure wrapper w made from f is pointer-like: *(&w) is the designated object.  The row      *)
+      (* gives the type of that lvalue (the statement does not fix the pointer-like type itself)               *)
+      [] fac \in {"pointer_deref", "pointer_arrow", "address_of"} -> {LRef(ct) : ct \in ClosureType(Deduced(f))}
       (* forward_sequence<R, A>(a): the argument itself (same value category) when the decayed   *)
       (* types agree, a new R by value otherwise                                                   *)
       [] fac = "forward_same"     -> {IF Deduced(f).ref = "lref" THEN Deduced(f) ELSE [Deduced(f) EXCEPT !.ref = "rref"]}
@@ -115,14 +126,15 @@ FactoryCT(fac, f) ==
 (* The table: one row per mapping and argument *)
 ObjTerms == {u \in Terms : Obj(u)}
 Rows ==
-       {[map |-> "closure_type",           a |-> s, b |-> s, allowed |-> ClosureType(s)]         : s \in {t \in Terms : NoVol(t)}}
-  \cup {[map |-> "const_closure_type",     a |-> s, b |-> s, allowed |-> ConstClosureType(s)]    : s \in {t \in Terms : NoVol(t)}}
-  \cup {[map |-> "ptr_closure_type",       a |-> s, b |-> s, allowed |-> PtrClosureType(s)]      : s \in {t \in Terms : NoVol(t) /\ Plain(t)}}
-  \cup {[map |-> "const_ptr_closure_type", a |-> s, b |-> s, allowed |-> ConstPtrClosureType(s)] : s \in {t \in Terms : NoVol(t) /\ Plain(t)}}
+       {[map |-> "closure_type",           a |-> s, b |-> s, allowed |-> ClosureType(s)]         : s \in Terms}
+  \cup {[map |-> "const_closure_type",     a |-> s, b |-> s, allowed |-> ConstClosureType(s)]    : s \in Terms}
+  \cup {[map |-> "ptr_closure_type",       a |-> s, b |-> s, allowed |-> PtrClosureType(s)]      : s \in {t \in Terms : Plain(t)}}
+  \cup {[map |-> "const_ptr_closure_type", a |-> s, b |-> s, allowed |-> ConstPtrClosureType(s)] : s \in {t \in Terms : Plain(t)}}
   \cup {[map |-> "apply_cv",               a |-> t, b |-> u, allowed |-> ApplyCv(t, u)]          : t \in Terms, u \in {o \in ObjTerms : Plain(o)}}
   \cup {[map |-> "constify",               a |-> t, b |-> t, allowed |-> Constify(t)]            : t \in Terms}
 FactoryRows ==
   {[map |-> fac, form |-> f, allowed |-> FactoryCT(fac, f)] : fac \in Factories, f \in Forms}
+  \cup {[map |-> fac, form |-> f, allowed |-> FactoryCT(fac, f)] : fac \in VolFactories, f \in VolForms}
 
 VARIABLES row, frow
 Init == row \in Rows /\ frow \in (FactoryRows \cup {[map |-> "none", form |-> "T", allowed |-> {}]})
@@ -148,12 +160,12 @@ LvalueToRefRvalueToValue ==
     LET s == row.a IN
     /\ row.map \in {"closure_type", "const_closure_type"} =>
           \A r \in row.allowed :
-             IF s.ref = "lref" THEN r.ref = "lref" /\ Decay(r) = Decay(s) /\ (s.c => r.c)
-             ELSE Obj(r) /\ Decay(r) = Decay(s) /\ (r.c => s.c)
+             IF s.ref = "lref" THEN r.ref = "lref" /\ Decay(r) = Decay(s) /\ (s.c => r.c) /\ (s.v <=> r.v)
+             ELSE Obj(r) /\ Decay(r) = Decay(s) /\ (r.c => s.c) /\ ~r.v
     /\ row.map \in {"ptr_closure_type", "const_ptr_closure_type"} =>
           \A r \in row.allowed :
-             IF s.ref = "lref" THEN Obj(r) /\ r.ptr /\ (s.c => r.pc) /\ ~r.c
-             ELSE Obj(r) /\ ~r.ptr /\ Decay(r) = Decay(s)
+             IF s.ref = "lref" THEN Obj(r) /\ r.ptr /\ (s.c => r.pc) /\ (s.v <=> r.pv) /\ ~r.c /\ ~r.v
+             ELSE Obj(r) /\ ~r.ptr /\ Decay(r) = Decay(s) /\ ~r.v
     /\ row.map = "const_closure_type" /\ s.ref = "lref" => \A r \in row.allowed : r.c
     /\ row.map = "const_ptr_closure_type" /\ s.ref = "lref" => \A r \in row.allowed : r.pc
 
@@ -178,5 +190,5 @@ ConstifyLaws ==
 (* factories: lvalue sources give reference closures, rvalue sources owned values *)
 FactoryLaws ==
     frow.map \in {"closure", "const_closure", "closure_pointer", "const_closure_pointer", "optional"} =>
-       \A r \in frow.allowed : (r.ref = "lref") = (frow.form \in {"T&", "const T&"}) /\ r.ref # "rref"
+       \A r \in frow.allowed : (r.ref = "lref") = (frow.form \in {"T&", "const T&"} \cup VolForms) /\ r.ref # "rref"
 =============================================================================
